@@ -102,3 +102,28 @@ Example C02_program_nonvacuous :
              ("a", (MPublic, BUInt)); ("f", (MConst, BUInt)); ("j", (MConst, BUInt)); ("k", (MConst, BUInt));
              ("u", (MPublic, BUInt)); ("s", (MSecret, BUInt))].
 Proof. split; [reflexivity|]. split; [eexists; eexists; vm_compute; reflexivity | vm_compute; reflexivity]. Qed.
+
+(* ---- step level, for ANY state the tracer can be in (fresh_store holds of every reachable state) and ANY scalar
+   operand wrappers — whatever produced them: inputs, literals, earlier operations, accessors of n-tuples and objects,
+   parameters of nada functions, elements handed to map / reduce bodies.  An accepted operation returns a value of
+   exactly the type the written rules prescribe, filed in the operation store under a fresh id with that type
+   (step_ok: the store only grows, stays fresh, and the result's id is linked to a record of type mir_name t). *)
+From NadaV.Proofs Require Import ScalarInv.
+Theorem C02_binary_step : forall o ta ida va tb idb vb s w s1,
+  do_binop GenScalar.G o (WScalar ta ida va) (WScalar tb idb vb) s = Ok (w, s1) -> fresh_store s ->
+  exists t, principal (spec2 o ta tb) = Some t /\ ScalarInv.step_ok sty PE s s1 w t.
+Proof. exact binop_ok. Qed.
+Print Assumptions C02_binary_step.
+
+Theorem C02_unary_step : forall u ta ida va s w s1,
+  do_unop GenScalar.G u (WScalar ta ida va) s = Ok (w, s1) -> idlink s ida ta -> fresh_store s ->
+  exists t, match spec1 u ta with MustAccept t' => Some t' | MustSame => Some ta | _ => None end = Some t
+            /\ ScalarInv.step_ok sty PE s s1 w t.
+Proof. exact unop_ok. Qed.
+Print Assumptions C02_unary_step.
+
+Theorem C02_if_else_step : forall tc idc vc ta ida va tb idb vb s w s1,
+  do_ifelse GenScalar.G (WScalar tc idc vc) (WScalar ta ida va) (WScalar tb idb vb) s = Ok (w, s1) -> fresh_store s ->
+  exists t, principal (spec_ifelse tc ta tb) = Some t /\ ScalarInv.step_ok sty PE s s1 w t.
+Proof. exact ifelse_ok. Qed.
+Print Assumptions C02_if_else_step.
